@@ -208,11 +208,18 @@ def r4_memo(m):
     r.instances += 1
     # the key used for the memo lookup and store
     key_names = set()
+    # the memo table: the dict of the enclosing function that the wrapper reads and writes (whatever it is called)
+    outer = m.module_func("fparser.common.splitline", "memoize")
+    memo_names = {"memo"}
+    if outer is not None:
+        for n in A.body_nodes(outer.node):
+            if isinstance(n, ast.Assign) and len(n.targets) == 1 and isinstance(n.targets[0], ast.Name) and isinstance(n.value, ast.Dict):
+                memo_names.add(n.targets[0].id)
     for n in A.body_nodes(w.node):
-        if isinstance(n, ast.Subscript) and isinstance(n.value, ast.Name) and n.value.id == "memo":
+        if isinstance(n, ast.Subscript) and isinstance(n.value, ast.Name) and n.value.id in memo_names:
             key_names |= A.names_in(n.slice)
         if isinstance(n, ast.Call) and isinstance(n.func, ast.Attribute) and isinstance(n.func.value, ast.Name) \
-                and n.func.value.id == "memo" and n.func.attr in ("get", "setdefault") and n.args:
+                and n.func.value.id in memo_names and n.func.attr in ("get", "setdefault") and n.args:
             key_names |= A.names_in(n.args[0])
     a = w.node.args
     var, kw = (a.vararg.arg if a.vararg else None), (a.kwarg.arg if a.kwarg else None)
